@@ -873,6 +873,12 @@ def evaluate(ctx, c, rep, keep=None):
             ctx.fail({**feat, "check": "domain-edge", "symptom": "no-error"}, cj(),
                      f"{what}: the p-box reaches {min(c['box'][0])!r}, outside the domain of {c['f']}, and no error was raised")
         return impl
+    if c["k"] in ("recip", "rnum") and c.get("op", "div") == "div" and min(c["box"][0]) < 0 < max(c["box"][1]):
+        # 1/x is unbounded on a support holding zero in its interior: no box can be the image (9df94fc)
+        if impl[0] == "ok":
+            ctx.fail({**feat, "check": "recip-straddle", "symptom": "no-error"}, cj(),
+                     f"{what}: the p-box straddles zero, the reciprocal is unbounded, and a p-box was returned")
+        return impl
     if not in_domain(c):
         return impl
     if impl[0] != "ok":
@@ -924,7 +930,13 @@ def run(ctx: core.Check):
                        "reading of 'P * 0 is the number 0': every step of the returned p-box is [0,0]",
                        "binary64 overflow is outside the model: where the exact image of a step is not representable the call may "
                        "raise; a returned box must carry exactly +-inf there, the right values elsewhere, no NaN, ordered bounds"]
-    ctx.lean_stage(["Pun.Lemmas.PBoxNum", "Pun.Props.C06"])
+    from .translator import numops as _tr
+    def _gen():
+        res = _tr.generate(core.REPO, core.LEAN / "Pun/Gen/NumOpsGen.lean")
+        return "ok: pbox_number_ops, __neg__, reciprocal, _unary_template, %d number branches, %d operators regenerated" % (
+            len(res["methods"]), len(res["ops"]) + 1)
+    ctx.lean_stage(["Pun.Lemmas.PBoxNum", "Pun.Props.C06", "Pun.Props.C06Gen"],
+                   generators=[("number operations of pbox_abc.py (numops translator)", _gen)])
     cases = gen_cases(ctx)
     replies = core.model_batch("C06", [wire(c) for c in cases])
     recorded = []
